@@ -7,4 +7,5 @@ CONSTANTS
   NamedStringValidated = TRUE
   RequiredFileIs422 = TRUE
   ItemFormatValidated = TRUE
+  FormDataFromBodyOnly = TRUE
 CHECK_DEADLOCK FALSE
